@@ -5,18 +5,24 @@ open GB GB.Proto
 
 def parseLocks (s : String) : List String := if s == "-" then [] else s.splitOn ","
 
-/-- `pair <field> <fnA> <wA> <locksA> <ownA> <freshA> <fnB> <wB> <locksB> <ownB> <freshB> => present|absent`
+/-- `pair <field> <fnA> <wA> <locksA> <ownA> <freshA> <preA> <postA> <rootsA> <fnB> … <rootsB> => present|absent`
     One conflicting-candidate pair of the regenerated access table; judged with the same
     `conflict` / `protectedPair` definitions the theorem `C18_lockset_partial` is about. -/
 def handle : Handler
-  | ["pair", f, fa, wa, la, oa, fra, fb, wb, lb, ob, frb], [out] =>
-    let a : Acc := ⟨f, fa, wa == "1", parseLocks la, parseLocks oa, fra == "1"⟩
-    let b : Acc := ⟨f, fb, wb == "1", parseLocks lb, parseLocks ob, frb == "1"⟩
+  | ["pair", f, fa, wa, la, oa, fra, pa, qa, ra, fb, wb, lb, ob, frb, pb, qb, rb], [out] =>
+    let a : Acc := ⟨f, fa, wa == "1", parseLocks la, parseLocks oa, fra == "1", parseLocks pa, parseLocks qa, parseLocks ra⟩
+    let b : Acc := ⟨f, fb, wb == "1", parseLocks lb, parseLocks ob, frb == "1", parseLocks pb, parseLocks qb, parseLocks rb⟩
     if out == "absent" then "OK b=absent"   -- replayed pair no longer exists in the current table
     else if !conflict a b then "OK b=noconflict"
     else if commonLock a b then "OK nt b=mutex"
-    else if confined a b then "OK nt b=confined"
+    else if confined a b then
+      (if confinement.any (fun c => rowOf c a b && c.mech.isChecked && mechOk c.mech a b) then "OK nt b=confined-checked" else "OK nt b=confined")
+    else if rowBroken a b then
+      s!"VIOL hb-unordered field={f} a={fa} b={fb} (confinement row present, but the regenerated table does not show its release/acquire operations: a.pre={pa} a.post={qa} a.roots={ra} b.pre={pb} b.post={qb} b.roots={rb})"
     else s!"VIOL unprotected field={f} a={fa} b={fb}"
+  | ["ppw", e], [out] =>
+    -- one entry of the regenerated list `postPublicationWrites` (must be empty: `C18_published_immutable`)
+    if out == "absent" then "OK b=absent" else s!"VIOL post-publication-write {e}"
   | _, _ => "BAD c18 line"
 
 end GB.C18
